@@ -53,6 +53,7 @@ SPAWN = [
     {"kind": "raise", "pauses": 1},
     {"kind": "grand", "pauses": 1},
     {"kind": "raise_on_cancel", "pauses": 1},
+    {"kind": "slow_cancel", "pauses": 1},
 ]
 
 
@@ -83,6 +84,10 @@ def programs(tier: str):
     outer_blocks = list(_blocks(tier))
     for b in outer_blocks:
         yield {"family": "scope", "block": b, "cancels": 1, "outer": False}
+        if b["spawns"] and len(b["disp"]) <= 1:
+            # the body fails on its own; the cancellation may arrive while the exit is already
+            # aborting the spawned tasks
+            yield {"family": "scope", "block": dict(b, ending="raise"), "cancels": 1, "outer": False}
     # nested: an inner block of every kind inside a simple / busy outer scope
     inner_kinds = [
         {"kind": "sscope", "supply": ["A"], "pause": True, "ending": "return"},
@@ -189,7 +194,8 @@ def execute(program, ch: Chooser) -> Result:  # noqa: C901
             return  # waiting for a disposable, not for the tasks
         if r.phase[0] != "exiting":
             return
-        blocked = [s["name"] for s in r.all_spawned if s["task"] is not None and not s["task"].done()]
+        # (a task that has been asked to cancel and is still cleaning up is legitimately awaited)
+        blocked = [s["name"] for s in r.all_spawned if s["task"] is not None and not s["task"].done() and s["task"].cancelling() == 0]
         if blocked:
             waited.append(blocked)
 
